@@ -32,7 +32,7 @@ def wkb_pipeline(run, focus):
     run.coverage_zeros(r)
     # ---- cases
     cases = []
-    wn, wb = ("{16, 17}", "{256}") if quick else ("{15, 16, 17, 33}", "{255, 256, 257}")
+    wn, wb = ("{16, 17}", "{256, 1025}") if quick else ("{15, 16, 17, 33}", "{255, 256, 257, 1024, 1025, 2055}")
     if focus == "C05":
         p = os.path.join(out, "GenC.cfg")
         with open(p, "w") as f:
@@ -46,6 +46,13 @@ def wkb_pipeline(run, focus):
             f.write("SPECIFICATION GenSpec\nCHECK_DEADLOCK FALSE\nCONSTANTS\n  L = 0\n  LG = 0\n  Mode = \"hostile\"\n  WideN = {}\n  WideB = {}\n  MaxReads = %d\n  MaxDepth = 3\nINVARIANT EmitHostile\n" % (4 if quick else 6))
         cp = os.path.join(out, "hostile.ndjson")
         run.gen("gen_hostile", SPEC, "WKBGen", p, cp, workers=4, timeout=3000)
+        cases += vlib.read_ndjson(cp)
+        # members of a foreign type inside multi-geometries (complete geometries, so no bounded read sequence reaches them)
+        p = os.path.join(out, "GenF.cfg")
+        with open(p, "w") as f:
+            f.write("SPECIFICATION GenSpec\nCHECK_DEADLOCK FALSE\nCONSTANTS\n  L = 0\n  LG = 0\n  Mode = \"foreign\"\n  WideN = {}\n  WideB = {}\n  MaxReads = 0\n  MaxDepth = 0\n")
+        cp = os.path.join(out, "foreign.ndjson")
+        run.gen("gen_foreign", SPEC, "WKBGen", p, cp, workers=1, timeout=3000)
         cases += vlib.read_ndjson(cp)
     cpath = os.path.join(out, "cases.ndjson")
     vlib.write_ndjson(cpath, cases)
